@@ -20,6 +20,7 @@ import (
 	"encoding/json"
 	"fmt"
 	"math/rand"
+	"net"
 	"net/netip"
 	"os"
 	"os/exec"
@@ -28,12 +29,16 @@ import (
 	"sort"
 	"strconv"
 	"strings"
+	"syscall"
 	"time"
 
 	"github.com/mycoria/crop"
+	mycoria "github.com/mycoria/mycoria"
+	"github.com/mycoria/mycoria/config"
 	"github.com/mycoria/mycoria/m"
 	"github.com/mycoria/mycoria/storage"
 
+	"verifharness/internal/mesh"
 	"verifharness/internal/vf"
 )
 
@@ -258,6 +263,24 @@ func helper() {
 	mode := os.Getenv("VERIF_C18_HELPER")
 	target := os.Args[1]
 	switch mode {
+	case "instance":
+		// a whole router (tun disabled) on the state path: constructed, optionally started, then the process is killed
+		// before it ever saves; os.Args[2] = "new" | "start"
+		in, err := newInstance(target)
+		if err != nil {
+			fmt.Fprintln(os.Stderr, "construct:", err)
+			os.Exit(4)
+		}
+		if os.Args[2] == "start" {
+			if err := in.Start(); err != nil {
+				fmt.Fprintln(os.Stderr, "start:", err)
+				os.Exit(5)
+			}
+			time.Sleep(50 * time.Millisecond)
+		}
+		_ = syscall.Kill(os.Getpid(), syscall.SIGKILL)
+		time.Sleep(time.Second)
+		os.Exit(6)
 	case "save":
 		data, err := os.ReadFile(os.Args[2])
 		if err != nil {
@@ -297,6 +320,92 @@ func helper() {
 		}
 	}
 	os.Exit(0)
+}
+
+// newInstance constructs a relay-only router whose state lives in the given file.
+func newInstance(statePath string) (*mycoria.Instance, error) {
+	st := config.Store{}
+	st.Router.Address = mesh.Identities(1)[0].Store()
+	st.System.DisableTun = true
+	st.System.StatePath = statePath
+	ln, err := net.Listen("tcp", "127.0.0.1:0")
+	if err != nil {
+		return nil, err
+	}
+	port := ln.Addr().(*net.TCPAddr).Port
+	_ = ln.Close()
+	st.Router.Listen = []string{fmt.Sprintf("tcp:%d", port)}
+	cfg, err := st.Parse()
+	if err != nil {
+		return nil, err
+	}
+	return mycoria.New("v0.0.0-verif", cfg)
+}
+
+// instanceGenerations: "the router starts" is a claim about the whole router, not about the storage package alone. A
+// router is constructed (and started) on a state path by mycoria.New in a child process that is killed before it
+// ever saves - first on a path where no state file exists yet, then on the file a completed shutdown left - and the
+// next construction on the same path must succeed.
+func instanceGenerations(c *vf.Ctx) {
+	exe, err := os.Executable()
+	if err != nil {
+		c.Fatal("instance: %v", err)
+	}
+	n := 0
+	for _, first := range []string{"missing", "saved"} {
+		for _, kill := range []string{"new", "start"} {
+			dir := filepath.Join(c.Work, fmt.Sprintf("inst-%s-%s", first, kill))
+			_ = os.MkdirAll(dir, 0o755)
+			path := filepath.Join(dir, "state.json")
+			if first == "saved" {
+				in, err := newInstance(path)
+				if err != nil {
+					c.Fatal("instance (first generation): %v", err)
+				}
+				if err := in.Start(); err != nil {
+					c.Fatal("instance start: %v", err)
+				}
+				if !in.Stop() {
+					c.Fatal("instance stop failed")
+				}
+			}
+			cmd := exec.Command(exe, path, kill)
+			cmd.Env = append(os.Environ(), "VERIF_C18_HELPER=instance", "VERIF_CHILD=1")
+			out, _ := cmd.CombinedOutput()
+			if cmd.ProcessState == nil || cmd.ProcessState.ExitCode() != -1 {
+				c.Broken("instance helper (%s/%s) was not killed as planned: %s", first, kill, tailStr(string(out), 300))
+				continue
+			}
+			c.Eval(1)
+			n++
+			var in2 *mycoria.Instance
+			p, pv, _ := vf.NoPanic(func() { in2, err = newInstance(path) })
+			fi, _ := os.Stat(path)
+			size := int64(-1)
+			if fi != nil {
+				size = fi.Size()
+			}
+			if p || err != nil {
+				c.Violation(vf.Key("instance-refuses-to-start", first, kill), fmt.Sprintf("a router was constructed on a state path (state file before: %s), killed %s before it ever saved; the next start on that path is refused: %v %v (state file now: %d bytes)", first, map[string]string{"new": "right after its construction", "start": "after it was started"}[kill], err, pv, size),
+					map[string]any{"first": first, "kill": kill, "error": fmt.Sprint(err), "size": size}, nil)
+				continue
+			}
+			if in2 != nil {
+				if err := in2.Start(); err == nil {
+					_ = in2.Stop()
+				}
+			}
+			c.Distinct(fmt.Sprintf("instance|%s|%s", first, kill))
+		}
+	}
+	c.Stage("R-instance", map[string]any{"kills": n})
+}
+
+func tailStr(s string, n int) string {
+	if len(s) > n {
+		return s[len(s)-n:]
+	}
+	return s
 }
 
 // ---------- strace
@@ -1196,6 +1305,7 @@ func run(c *vf.Ctx) {
 		}
 	}
 	c.Stage("R", map[string]any{"pairs": len(pairs), "roundtrips": rounds * len(sizes)})
+	instanceGenerations(c)
 }
 
 var reCreated = regexp.MustCompile(`"S":\d+,"N":\d+`)
